@@ -627,8 +627,12 @@ func (a *segment) Persist(file File, options *StoreOptions) (rv SegmentLoc, err 
 // loadBasicSegment loads a basic segment.
 func loadBasicSegment(sloc *SegmentLoc) (Segment, error) {
 	var kvs []uint64
-	var buf []byte
 	var err error
+
+	// A non-nil buf, even when the segment has no key-val bytes at all
+	// (only the empty key with an empty value), so that a found entry
+	// is distinguishable from a missing one.
+	buf := []byte{}
 
 	if sloc.KvsBytes > 0 {
 		if sloc.KvsBytes > uint64(len(sloc.mref.buf)) {
